@@ -20,7 +20,7 @@ pub use hash::HashParser;
 use nom::branch::alt;
 use nom::character::complete as char_comp;
 use nom::character::streaming as char_str;
-use nom::combinator::{eof, map, opt, peek, recognize};
+use nom::combinator::{complete as complete_parser, eof, map, opt, peek, recognize};
 use nom::error::ErrorKind;
 use nom::sequence::{pair, preceded};
 use nom::{Finish, IResult, Parser};
@@ -151,7 +151,11 @@ fn attr_name(input: Span<'_>) -> IResult<Span<'_>, Cow<'_, str>> {
 }
 
 fn attr_name_final(input: Span<'_>) -> IResult<Span<'_>, Cow<'_, str>> {
-    alt((string_literal, map(complete::identifier, Cow::Borrowed)))(input)
+    // This runs on the final segment of the input: running out of input is an error, not `Incomplete`.
+    alt((
+        complete_parser(string_literal),
+        map(complete::identifier, Cow::Borrowed),
+    ))(input)
 }
 
 impl<'a> ParseEvents<'a> {
